@@ -158,8 +158,8 @@ def unit_scaling_backend(
                 # instead substituted for its unit scaled equivalent here.
                 if not is_residual_add:
                     logger.info("unit scaling function: %s", node)
-                    args = (*node.args, None)  # None denotes unconstrained
-                    replace_node_with_function(graph, node, U.add, args=args)
+                    kwargs = dict(node.kwargs, constraint=None)  # unconstrained
+                    replace_node_with_function(graph, node, U.add, kwargs=kwargs)
 
         # Replace nodes marked as residual-adds with unit scaled equivalent
         for node in graph.nodes:
